@@ -20,7 +20,7 @@ ID = "C13"
 LEVEL = "model_checking"
 MIN_OUTCOMES = 3
 MANIFEST = {
-    'text': "Complete enumeration of a constructed project table (incl. files that lag behind current_version, files that begin with a UTF-8 BOM, files of 6,000 and 2,500 lines with several hunks, a 20,000-character line, file patterns with a calendar part under version patterns without one (with --date / --pin-date), and files with FF/control characters, U+2028, NBSP or decomposed text around the version line) x flag sets x message templates, plus fake-git cases in which a fetch brings newer tags, and every subset of six existing tags around the version about to be created (twins that do not match the pattern, a newer valid tag, junk, a pre-release, the new version itself) x scope x committing on/off: the two-step history (update --dry; update) is executed on the real CLI from the same snapshot; the dry run must not change a byte, and whenever it exits 0 the unified diff it printed - applied by a strict applier that checks file names, line numbers, counts and every context/removed line under the file's own separator - must reproduce exactly the bytes the real run writes, and the real run must exit 0. A real-git chunk repeats the two-step history with committing on in clean real repositories whose configured file is tracked / git-ignored / ignored but tracked / inside an ignored directory (x tag x separate git dir): what --dry cannot see - the staging step - must not make the real run fail.",
+    'text': 'Complete enumeration of a constructed project table (incl. files that lag behind current_version, files that begin with a UTF-8 BOM, files of 6,000 and 2,500 lines with several hunks, a 20,000-character line, file patterns with a calendar part under version patterns without one (with --date / --pin-date), and files with FF/control characters, U+2028, NBSP or decomposed text around the version line) x flag sets x message templates, plus fake-git cases in which a fetch brings newer tags, and every subset of six existing tags around the version about to be created (twins that do not match the pattern, a newer valid tag, junk, a pre-release, the new version itself) x scope x committing on/off: the two-step history (update --dry; update) is executed on the real CLI from the same snapshot; the dry run must not change a byte, and whenever it exits 0 the unified diff it printed - applied by a strict applier that checks file names, line numbers, counts and every context/removed line under the file\'s own separator - must reproduce exactly the bytes the real run writes, and the real run must exit 0. A real-git chunk repeats the two-step history with committing on in clean real repositories whose configured file is tracked / git-ignored / ignored but tracked / inside an ignored directory (x tag x separate git dir): what --dry cannot see - the staging step, and messages with \' " $ ` handed to the real tool - must not make the real run fail.',
     'note': 'mixed line endings are excluded by the property; coloured tty output is not exercised',
     'technique': 'exhaustive enumeration of bounded project x argument space, differential oracle (strict diff applier vs real run) on the real CLI',
 }
@@ -348,15 +348,16 @@ def real_git_cases(st):
 
     for state in GIT_FILE_STATES:
         for tag in (False, True):
-            for separate in (False, True):
+            for separate, msg in ((False, None), (True, None), (False, "release {new_version}, don't panic"), (True, 'it\'s "{new_version}" ($HOME `date`) now')):
                 gen = "build/_version.py" if state == "ignored-directory" else "src/_version.py"
                 cfg = ('[bumpver]\ncurrent_version = "1.2.3"\nversion_pattern = "MAJOR.MINOR.PATCH"\n'
-                       f'commit = true\ntag = {"true" if tag else "false"}\npush = false\n\n'
+                       f'commit = true\ntag = {"true" if tag else "false"}\npush = false\n'
+                       + (f"commit_message = {pt.toml_str(msg)}\ntag_message = {pt.toml_str(msg)}\n" if msg else "") + "\n"
                        f'[bumpver.file_patterns]\n"bumpver.toml" = [\'current_version = "{{version}}"\']\n"a.txt" = ["ver={{version}};"]\n"{gen}" = ["{{version}}"]\n')
                 ignore = {"tracked": "*.pyc\n", "ignored": "src/_version.py\n", "ignored-but-tracked": "_version.py\n", "ignored-directory": "/build/\n"}[state]
                 tree = {"bumpver.toml": cfg.encode(), "a.txt": b"x\nver=1.2.3;\ny\n", gen: b'__version__ = "1.2.3"\n', ".gitignore": ignore.encode()}
                 seps = {k: "\n" for k in tree}
-                case = {"real_git": True, "configured_file": state, "tag": tag, "separate_git_dir": separate, "flags": ["--patch"]}
+                case = {"real_git": True, "configured_file": state, "tag": tag, "separate_git_dir": separate, "flags": ["--patch"], "message": msg}
 
                 def vcs():
                     gw.init(".", separate=separate)
